@@ -146,7 +146,30 @@ def c03(tier, seed):
                   min_nontrivial=50)
 
 
+def c06(tier, seed):
+    res = common.Result()
+    dbg = build("dbg")
+    r = run_engine(dbg, "crash", 1000000, seed, {"stage": "product"}, build_name="dbg", timeout_case=60)
+    product = r.extra.get("product_size")
+    res.absorb(r)
+    if tier == "quick":
+        res.absorb(run_engine(dbg, "crash", n(20000), seed, {"stage": "random"}, build_name="dbg", timeout_case=30))
+    else:
+        rel = build("rel")
+        res.absorb(run_engine(rel, "crash", 1000000, seed, {"stage": "product"}, build_name="rel", timeout_case=60))
+        res.absorb(run_engine(rel, "crash", n(300000), seed, {"stage": "random"}, build_name="rel", timeout_case=30))
+        res.absorb(run_engine(dbg, "crash", n(60000), seed + 5, {"stage": "random"}, build_name="dbg", timeout_case=30))
+    triage(res)
+    res.extra["product_size"] = product
+    return finish("C06", tier, seed, "exploration", res,
+                  "stage product (enumerated completely on every run): 8 routes by which a value whose type is only known at run time reaches a position {parameter, array element, pop() result, function with mixed return types, variable reassigned to another type, uninitialised variable later assigned, index of a literal, no route (literal)} x ~230 positions {each of the 10 binary operators x lhs/rhs/both x other operand of each type, not, unary minus, if/jasi condition, index base/value, indexed-assignment base/value, receiver of each of 33 methods with correct/too few/too many arguments, typed method arguments, global built-ins, process builder arguments, interpolation, array literal, user call} x 7 run-time types {number, string, boolean, null, array, process_command, process_result}, plus forward calls before a captured variable is declared, loop control in a function defined inside a loop, and functions that fall off the end; each program goes through the checker and only accepted ones run; a panic/abort/signal of the worker is a violation. Stage random: generated programs with 1-3 sub-expressions replaced by a value of another run-time type behind `[v][0]`. Non-trivial = accepted by the checker and the marker `shout(\"before\")` placed immediately before the probed position was printed; distinct = hash of the source text",
+                  ["allocation-failure aborts and watchdog kills are resource outcomes (inconclusive), not crashes",
+                   "a panic is attributed by message (digits normalised) and enclosing function of the panic location"],
+                  min_nontrivial=500, exhaustive=True)
+
+
 CHECKS = {
+    "C06": c06,
     "C02": c02,
     "C03": c03,
     "C01": c01,
